@@ -7,7 +7,8 @@
 //! harness, independent of the Coq one), runs the real `hydrate::<true>` under `catch_unwind`,
 //! and then compares the hydrated tree with a client-built twin before and after rebuilds.
 //!
-//! observation `(html tree (1 nops) same touched csr_eq perturbed_ok rebuild_ok)` or
+//! observation `(html tree (1 nops) same touched csr_eq [perturbed_ok rebuild_ok])` (the last two only when
+//! `csr_eq` = 1) or
 //! `(html tree (0))` when hydration panics:
 //!  * `tree`: what the parser built, `(0 bytes)` text / `(1)` comment / `(2 name attrs kids)`
 //!  * `nops`: DOM mutations performed by `hydrate`; `same`: node ids/kinds/shape unchanged by it
@@ -487,8 +488,13 @@ pub fn run(c: &Sexp) -> Sexp {
     touched.sort();
     if !twin_ok {
         // the client-side rebuild itself fails: not a hydration matter, nothing left to compare
-        return Lst(vec![Sexp::from_str(&html), tree_s, Lst(vec![Num(1), Num(nops as i64)]), Sexp::bool(same),
-                        Sexp::from_nums(touched), Sexp::bool(csr_eq), Num(1), Num(1)]);
+        let mut out = vec![Sexp::from_str(&html), tree_s, Lst(vec![Num(1), Num(nops as i64)]), Sexp::bool(same),
+                           Sexp::from_nums(touched), Sexp::bool(csr_eq)];
+        if csr_eq {
+            out.push(Num(1));
+            out.push(Num(1));
+        }
+        return Lst(out);
     }
     let created_h = shape(&root).iter().map(|x| x.0).collect::<Vec<_>>() != before.iter().map(|x| x.0).collect::<Vec<_>>();
     let created_t = shape(&root2).iter().map(|x| x.0).collect::<Vec<_>>() != twin_before.iter().map(|x| x.0).collect::<Vec<_>>();
@@ -502,14 +508,18 @@ pub fn run(c: &Sexp) -> Sexp {
         let ok = catch_unwind(AssertUnwindSafe(|| mk(&v2).rebuild(&mut st))).is_ok();
         ok && visible(&root) == visible(&root2)
     };
-    Lst(vec![
+    let mut out = vec![
         Sexp::from_str(&html),
         tree_s,
         Lst(vec![Num(1), Num(nops as i64)]),
         Sexp::bool(same),
         Sexp::from_nums(touched),
         Sexp::bool(csr_eq),
-        Sexp::bool(perturbed_ok),
-        Sexp::bool(rebuild_ok),
-    ])
+    ];
+    // the two trees already differ (only possible for mis-nested markup): nothing further to compare
+    if csr_eq {
+        out.push(Sexp::bool(perturbed_ok));
+        out.push(Sexp::bool(rebuild_ok));
+    }
+    Lst(out)
 }
